@@ -205,7 +205,9 @@ pub mod stdspec {
 //# section: stdspec-as-deref
     // TRUSTED: Option::as_deref keeps presence (std docs: `Option<T>` -> `Option<&T::Target>`).
     pub assume_specification<T: core::ops::Deref> [Option::<T>::as_deref] (o: &Option<T>) -> (r: Option<&<T as core::ops::Deref>::Target>)
-        ensures r is Some <==> o is Some;
+        ensures r is Some <==> o is Some, r == as_deref_spec::<T>(o);
+    // `as_deref_spec(o)`: the value of `o.as_deref()` (a function of `o`)
+    pub uninterp spec fn as_deref_spec<'a, T: core::ops::Deref>(o: &'a Option<T>) -> Option<&'a <T as core::ops::Deref>::Target>;
 //# section: stdspec-slice-iter
     // `iter_seq(it)`: the references a slice iterator has still to yield (bridged to vstd's `remaining()` by
     // axiom iter_seq_is_remaining; an uninterpreted name avoids a definitional cycle in Verus).
